@@ -62,6 +62,7 @@ struct Ctx<'a> {
     prop: Prop,
     used_comps: Vec<String>,
     used_index_reads: bool,
+    allow_nested_template: bool,
 }
 
 const ROOT_SCALARS: &[&str] = &["a", "b", "c", "d"];
@@ -144,7 +145,11 @@ impl<'a> Ctx<'a> {
     }
 
     fn lit(&mut self) -> Expr {
-        match self.r.below(8) {
+        match self.r.below(12) {
+            8 => Expr::Num((*self.r.pick(&["0x1f", "1e2", "2.50", "0.5", "100"])).into()),
+            9 => Expr::Str((*self.r.pick(&["é", "a b", "x\\ny", "q\\u00e9", "it\\'s", "<b>", "a&b", "}}x", "{y"])).into()),
+            10 => Expr::Num(format!("{}", 1000 + self.r.below(9000))),
+            11 => Expr::Str(format!("s{}", self.r.below(9))),
             0 => Expr::Num("0".into()),
             1 => Expr::Num(format!("{}", self.r.below(5))),
             2 => Expr::Str("".into()),
@@ -163,13 +168,13 @@ impl<'a> Ctx<'a> {
         let k = self.r.below(16);
         match k {
             0 | 1 => {
-                let op = *self.r.pick(&["+", "+", "-", "*"]);
+                let op = *self.r.pick(&["+", "+", "+", "-", "-", "*", "/", "%", "<<", ">>", ">>>", "&", "|", "^"]);
                 bin(op, self.expr(depth + 1), self.expr(depth + 1))
             }
             2 => Expr::Cond(Box::new(self.expr(depth + 1)), Box::new(self.expr(depth + 1)), Box::new(self.expr(depth + 1))),
             3 => bin(*self.r.pick(&["||", "&&", "??"]), self.expr(depth + 1), self.expr(depth + 1)),
-            4 => bin(*self.r.pick(&["===", "!==", "<", ">="]), self.expr(depth + 1), self.expr(depth + 1)),
-            5 => Expr::Un((*self.r.pick(&["!", "-", "typeof", "!"])).to_string(), Box::new(self.expr(depth + 1))),
+            4 => bin(*self.r.pick(&["===", "!==", "<", ">=", "==", "!=", "<=", ">"]), self.expr(depth + 1), self.expr(depth + 1)),
+            5 => Expr::Un((*self.r.pick(&["!", "-", "typeof", "!", "~", "+", "void"])).to_string(), Box::new(self.expr(depth + 1))),
             6 | 7 if self.f.arr_literals => {
                 let n = self.r.range(1, 3);
                 let mut items = vec![];
@@ -225,6 +230,7 @@ impl<'a> Ctx<'a> {
                     bin("+", self.expr(depth + 1), Expr::Str(format!("q{}", self.r.below(5))))
                 }
             }
+            13 | 14 => self.arith(0),
             12 => {
                 let o = self.object_leaf();
                 let key = if self.r.chance(0.5) && !self.in_template { id("s") } else { Expr::Str((*self.r.pick(&["x", "k", "v", "z", "p"])).into()) };
@@ -232,6 +238,27 @@ impl<'a> Ctx<'a> {
             }
             _ => self.scalar_leaf(),
         }
+    }
+
+    /// arithmetic over operands that are numbers at run time, so that grouping matters
+    fn arith(&mut self, depth: usize) -> Expr {
+        if depth >= 2 || self.r.chance(0.35) {
+            let mut pool: Vec<Expr> = vec![Expr::Num(format!("{}", 2 + self.r.below(8))), Expr::Num(format!("{}", 2 + self.r.below(8)))];
+            if self.in_template {
+                pool.push(id("k"));
+            } else {
+                pool.extend([id("n"), id("n"), member(id("list"), "length"), member(id("l2"), "length")]);
+            }
+            for sv in &self.scope {
+                if sv.kind == Kind::Index {
+                    pool.push(id(&sv.name));
+                }
+            }
+            let i = self.r.below(pool.len());
+            return pool.swap_remove(i);
+        }
+        let op = *self.r.pick(&["*", "*", "/", "%", "+", "-", "<<", "&"]);
+        bin(op, self.arith(depth + 1), self.arith(depth + 1))
     }
 
     fn top_expr(&mut self) -> Expr {
@@ -300,6 +327,24 @@ impl<'a> Ctx<'a> {
             let c = if self.in_template { id("a") } else { id("flag") };
             return (Expr::Cond(Box::new(c), Box::new(a), Box::new(b)), true);
         }
+        if self.r.chance(0.12) {
+            // one branch is assignable, the other is shaped like a path but is not (a script
+            // member, a loop index, an item of a literal list): a path may only come with the former
+            let mut other: Vec<Expr> = vec![index(Expr::Arr(vec![ArrItem::Item(id("a")), ArrItem::Item(id("b"))]), Expr::Num("0".into()))];
+            if let Some(m) = self.modules.first() {
+                other.push(member(id(m), "k"));
+                other.push(member(member(id(m), "o"), "g"));
+            }
+            if let Some(ix) = self.scope.iter().rev().find(|s| s.kind == Kind::Index) {
+                other.push(id(&ix.name));
+                other.push(id(&ix.name));
+            }
+            let j = self.r.below(other.len());
+            let b = other.swap_remove(j);
+            let c = if self.in_template { id("a") } else { id(*self.r.pick(&["flag", "flag", "a", "n"])) };
+            let e = if self.r.chance(0.5) { Expr::Cond(Box::new(c), Box::new(a), Box::new(b)) } else { Expr::Cond(Box::new(c), Box::new(b), Box::new(a)) };
+            return (e, true);
+        }
         (a, true)
     }
 
@@ -346,7 +391,7 @@ impl<'a> Ctx<'a> {
                 5 => (format!("mark:{}", self.r.pick(&["m", "n"])), self.attr_val()),
                 6 => ("hidden".to_string(), if self.r.chance(0.3) { AttrVal::None } else { AttrVal::Bind(self.top_expr()) }),
                 7 if self.f.events => {
-                    let prefix = *self.r.pick(&["bind:", "catch:", "mut-bind:", "capture-bind:", "bind"]);
+                    let prefix = *self.r.pick(&["bind:", "catch:", "mut-bind:", "capture-bind:", "bind", "capture-catch:", "capture-mut-bind:", "catch"]);
                     let ev = *self.r.pick(&["tap", "custom"]);
                     let val = match self.r.below(4) {
                         0 => AttrVal::Static((*self.r.pick(&["h1", "h2"])).to_string()),
@@ -397,6 +442,8 @@ impl<'a> Ctx<'a> {
             if self.f.arr_literals {
                 pool.push((Expr::Arr(vec![ArrItem::Item(id("a")), ArrItem::Item(member(id("obj"), "x")), ArrItem::Spread(id("l2"))]), Kind::Scalar, false, None));
                 pool.push((Expr::Cond(Box::new(id("flag")), Box::new(id("list")), Box::new(Expr::Arr(vec![]))), Kind::Record, true, Some("k")));
+                // one branch has a path, the other (a literal list) has none
+                pool.push((Expr::Cond(Box::new(id("flag")), Box::new(id("l2")), Box::new(Expr::Arr(vec![ArrItem::Item(id("a")), ArrItem::Item(id("b"))]))), Kind::Scalar, true, Some("*this")));
             }
             if self.f.index_reads {
                 pool.push((member(index(id("list"), id("n")), "sub"), Kind::SubRecord, true, Some("k")));
@@ -496,6 +543,42 @@ impl<'a> Ctx<'a> {
                 Node::For { list, key, item: if rename { Some(item) } else { None }, index: if rename { Some(idx) } else { None }, children, on }
             }
             13 => Node::Block(self.nodes(depth + 1)),
+            14 if self.f.templates && !self.in_template && self.scope.iter().any(|s| matches!(s.kind, Kind::Record | Kind::SubRecord | Kind::Scalar)) && self.r.chance(0.6) => {
+                // a template called from inside a loop with data made of loop variables only
+                let item = self.scope.iter().rev().find(|s| matches!(s.kind, Kind::Record | Kind::SubRecord | Kind::Scalar)).cloned().unwrap();
+                let idx = self.scope.iter().rev().find(|s| s.kind == Kind::Index).map(|s| s.name.clone());
+                let mut items = vec![];
+                match item.kind {
+                    Kind::Record => {
+                        items.push(ObjItem::Named("q".into(), member(id(&item.name), "v")));
+                        items.push(ObjItem::Named("x".into(), member(id(&item.name), "w")));
+                        if self.r.chance(0.5) {
+                            items.push(ObjItem::Named("list".into(), member(id(&item.name), "sub")));
+                        }
+                    }
+                    Kind::SubRecord => {
+                        items.push(ObjItem::Named("q".into(), member(id(&item.name), "v")));
+                        items.push(ObjItem::Spread(id(&item.name)));
+                    }
+                    _ => items.push(ObjItem::Named("q".into(), id(&item.name))),
+                }
+                if let Some(ix) = idx {
+                    items.push(ObjItem::Named("k".into(), id(&ix)));
+                }
+                let target = if self.r.chance(0.7) { AttrVal::Static((*self.r.pick(&["t1", "t2"])).into()) } else { AttrVal::Bind(Expr::Cond(Box::new(member(id(&item.name), "v")), Box::new(Expr::Str("t1".into())), Box::new(Expr::Str("t2".into())))) };
+                Node::TemplateIs { target, data: Some(Expr::Obj(items)) }
+            }
+            14 if self.in_template && self.f.templates && self.allow_nested_template => {
+                // t2 calls t1 (never the other way round): a second template level
+                let mut items = vec![ObjItem::Named("q".into(), self.scalar_leaf()), ObjItem::Short("a".into())];
+                if self.r.chance(0.5) {
+                    items.push(ObjItem::Spread(id("y")));
+                }
+                if self.r.chance(0.5) {
+                    items.push(ObjItem::Short("list".into()));
+                }
+                Node::TemplateIs { target: AttrVal::Static("t1".into()), data: Some(Expr::Obj(items)) }
+            }
             14 if self.f.templates && !self.in_template => {
                 let target = match self.r.below(4) {
                     0 => AttrVal::Bind(id("s")),
@@ -550,6 +633,18 @@ impl<'a> Ctx<'a> {
                 }
                 if self.r.chance(0.2) {
                     attrs.push(Attr { name: "id".into(), val: self.attr_val() });
+                }
+                if !self.modules.is_empty() && self.r.chance(0.3) {
+                    // a change: listener from a script module (carries a general l-value path)
+                    let m = self.r.pick(&self.modules).clone();
+                    let f = if self.r.chance(0.6) { member(id(&m), "f") } else { member(member(id(&m), "o"), "g") };
+                    attrs.push(Attr { name: (*self.r.pick(&["change:p", "change:q"])).into(), val: AttrVal::Bind(f) });
+                }
+                if self.f.events && self.r.chance(0.2) {
+                    attrs.push(Attr { name: "bind:custom".into(), val: AttrVal::Static("h2".into()) });
+                }
+                if self.r.chance(0.15) {
+                    attrs.push(Attr { name: "mark:cm".into(), val: self.attr_val() });
                 }
                 let children = if self.r.chance(0.7) { self.nodes(depth + 1) } else { vec![] };
                 Node::El { tag: "plain".into(), attrs, children }
@@ -881,14 +976,14 @@ pub fn generate(seed: u64, prop: Prop) -> World {
         modules.push("ms".to_string());
     }
 
-    let mut root = TFile { path: "index".into(), style: if rs.chance(0.6) { rs.below(32) as u32 } else { 0 }, ..Default::default() };
+    let mut root = TFile { path: "index".into(), style: if rs.chance(0.6) { rs.below(64) as u32 } else { 0 }, ..Default::default() };
     if with_inline {
         root.wxs_inline.push(("m".into(), WXS_INLINE.into()));
     }
     if with_ext {
         root.wxs_ext.push(("ms".into(), (*rt.pick(&["/utils/s", "utils/s.wxs", "./utils/s"])).to_string()));
     }
-    let mut ctx = Ctx { r: &mut rt, f: f.clone(), scope: vec![], in_template: false, modules: modules.clone(), budget: size, prop, used_comps: vec![], used_index_reads: false };
+    let mut ctx = Ctx { r: &mut rt, f: f.clone(), scope: vec![], in_template: false, modules: modules.clone(), budget: size, prop, used_comps: vec![], used_index_reads: false, allow_nested_template: false };
     let mut body = ctx.nodes(0);
     while ctx.budget > 0 && body.len() < 6 {
         body.extend(ctx.nodes(0));
@@ -907,9 +1002,11 @@ pub fn generate(seed: u64, prop: Prop) -> World {
             ctx.in_template = false;
             (name.to_string(), b)
         };
-        let mut l = TFile { path: "lib/tpls".into(), style: if rs.chance(0.5) { rs.below(32) as u32 } else { 0 }, ..Default::default() };
+        let mut l = TFile { path: "lib/tpls".into(), style: if rs.chance(0.5) { rs.below(64) as u32 } else { 0 }, ..Default::default() };
         l.templates.push(mk(&mut ctx, "t1"));
+        ctx.allow_nested_template = true;
         l.templates.push(mk(&mut ctx, "t2"));
+        ctx.allow_nested_template = false;
         root.imports.push((*ctx.r.pick(&["/lib/tpls", "lib/tpls.wxml", "./lib/tpls"])).to_string());
         if ctx.r.chance(0.3) {
             // a local definition shadows the imported one
@@ -920,9 +1017,12 @@ pub fn generate(seed: u64, prop: Prop) -> World {
     let mut inc: Option<TFile> = None;
     if f.include {
         ctx.budget = 5;
-        let mut i = TFile { path: "inc/part".into(), style: if rs.chance(0.5) { rs.below(32) as u32 } else { 0 }, ..Default::default() };
+        let mut i = TFile { path: "inc/part".into(), style: if rs.chance(0.5) { rs.below(64) as u32 } else { 0 }, ..Default::default() };
         let saved_mods = std::mem::take(&mut ctx.modules);
+        // (the included file must not include itself)
+        ctx.f.include = false;
         i.body = ctx.nodes(1);
+        ctx.f.include = true;
         ctx.modules = saved_mods;
         inc = Some(i);
     }
